@@ -2450,6 +2450,11 @@ where
                     kind: TimerKind::PingreqSend,
                     duration_ms: ms,
                 });
+            } else if self.pingreq_send_set {
+                // The interval in force is 0 (disabled): a timer armed under an earlier
+                // interval must not fire any more.
+                self.pingreq_send_set = false;
+                events.push(GenericEvent::RequestTimerCancel(TimerKind::PingreqSend));
             }
         }
     }
